@@ -1,13 +1,13 @@
 SPECIFICATION Spec
 CONSTANTS
-  Pre = 0
+  Pre = 2
   NSamples = 2
-  FragSNs = {1, 2}
-  NF = 3
-  MaxFaults = 3
+  FragSNs = {}
+  NF = 2
+  MaxFaults = 2
   K = 3
   MaxRounds = 6
-  GenK = 20
+  GenK = 3
 VIEW View
 INVARIANT Inv_Converge
 INVARIANT Inv_Quiet
